@@ -14,10 +14,9 @@ From GV Require Import Lib.Tree Lib.PolyRefl15 Lib.Graph15 Model.AutoEq Proofs.A
 Import ListNotations.
 Local Open Scope Q_scope.
 
-(* The full statement.  NOT proved: (1) monotonicity in phi of the iterate, (2) that the iterates
-   converge to a fixed point of the sweep (only the T-th iterate is characterised).  Both are only
-   observed: (1) is checked by c17_check on the implementation's answers of every query history,
-   (2) is not needed to compare implementation and specification at equal T. *)
+(* The full statement.  Its first conjunct is proved below (C17_monotone).  NOT proved: the second
+   conjunct, that the iterates converge to a fixed point of the sweep (only the T-th iterate is
+   characterised; convergence is not needed to compare implementation and specification at equal T). *)
 Definition C17_full : Prop :=
   (forall nt T phi phi', 0 <= phi -> phi <= phi' -> phi' <= 1 -> mp_spec nt T phi <= mp_spec nt T phi')
   /\ (forall nt phi, 0 <= phi <= 1 -> n_nodes nt <> [] ->
@@ -65,6 +64,12 @@ Print Assumptions C17_bounds.
 Theorem C17_zero : forall nt T phi, phi == 0 -> (0 < T)%nat -> n_nodes nt <> [] -> mp_spec nt T phi == 0.
 Proof. exact spec_zero. Qed.
 Print Assumptions C17_zero.
+
+(* GENERAL: the value is non-decreasing in phi, for every iteration count *)
+Theorem C17_monotone : forall nt phi phi', 0 <= phi -> phi <= phi' -> phi' <= 1 ->
+    forall T, mp_spec nt T phi <= mp_spec nt T phi'.
+Proof. exact spec_monotone. Qed.
+Print Assumptions C17_monotone.
 
 (* GENERAL: any sequence of queries on ONE object (its evaluator's caches persist and fill up, _H_tau
    and phi are reset by every query) returns what fresh objects return *)
